@@ -176,7 +176,7 @@ EXTRA = {
            "app-id switch travelling as the caller's extra request settings.",
     "C12": " Valve 'chalsilent' mode (a challenge, then silence) and the bound MaxReqs on the requests the real server sees "
            "(attempts are not multiplied by one another).",
-    "C13": " decompression_bomb: a compressed split reply with legal fields whose bzip2 stream expands to 300 MiB; set_txt_index.",
+    "C13": " decompression_bomb: a compressed split reply with legal fields whose bzip2 stream expands to 128 MiB; set_txt_index.",
     "C14": " The documented Valve-to-game conversion is re-stated in the harness (not taken from the library).",
     "C18": " The HTTP client (Eco) on a real socket with every accepted timeout combination.",
     "C19": " Timeout flag values that denote no representable duration (nan, inf, 1e20, 2^64) for each of the three flags; keys that are XML "
